@@ -129,7 +129,8 @@ def worker_env(extra=None):
 	if env.get('PYTHONPATH'):
 		pp.append(env['PYTHONPATH'])
 	env['PYTHONPATH'] = ':'.join(pp)
-	env['PYTHONHASHSEED'] = '0'
+	env.setdefault('VERIF_HASHSEED', '0')
+	env['PYTHONHASHSEED'] = env['VERIF_HASHSEED']
 	env['PYTHONDONTWRITEBYTECODE'] = '1'
 	env.setdefault('OMP_NUM_THREADS', '2')
 	env.setdefault('OMP_WAIT_POLICY', 'passive')
@@ -166,6 +167,9 @@ def _run_one(pid, tier, seed, shard, tmpdir, timeout):
 		except Exception as e:
 			return None, f'sanitizer overlay {san} could not be built: {e}', ''
 		extra_env.update(native.sanitizer_env(san, overlay, str(tmpdir / f'san{idx}')))
+	# string hashing (iteration order of sets / dicts of str) differs from shard to shard and from seed to seed, reproducibly: an output
+	# that is only right under one iteration order must not pass because the harness pinned that order
+	extra_env.setdefault('VERIF_HASHSEED', str(h64(f'{seed}/{shard.get("name")}') % 4294967295))
 	env = worker_env(extra_env)
 	cmd = shard.get('argv_prefix', []) + [PY, '-m', 'vf.worker', str(spec), str(out)]
 	log = tmpdir / f'log{idx}.txt'
